@@ -27,7 +27,7 @@ const mod = "github.com/tetratelabs/wazero"
 
 var syncFiles = []string{
 	"runtime.go", "cache.go", "builder.go",
-	"internal/wasm/store.go", "internal/wasm/store_module_list.go", "internal/wasm/module_instance.go",
+	"internal/wasm/store.go", "internal/wasm/store_module_list.go", "internal/wasm/module_instance.go", "internal/wasm/table.go",
 	"internal/engine/wazevo/engine.go", "internal/engine/wazevo/engine_cache.go",
 	"internal/engine/interpreter/interpreter.go",
 }
@@ -62,6 +62,14 @@ var guarded = map[string]map[string][]string{
 	"internal/engine/wazevo/engine_cache.go":     {"engine": {"compiledModules", "sortedCompiledModules"}},
 	"internal/wasm/store.go":                     {"Store": {"nameToModule", "moduleList", "typeIDs"}},
 	"internal/wasm/store_module_list.go":         {"Store": {"nameToModule", "moduleList", "typeIDs"}},
+}
+
+// fieldGuards: fields documented as guarded by a sibling mutex field of the same struct, whoever the
+// holder is: every simple statement that mentions <x>.<field> (x an identifier) in these files gets
+// `<x>.<mutex>.AssertHeld("<site>")` in front.
+var fieldGuards = map[string]map[string]string{
+	"internal/wasm/store.go": {"involvingModuleInstances": "involvingModuleInstancesMutex"},
+	"internal/wasm/table.go": {"involvingModuleInstances": "involvingModuleInstancesMutex"},
 }
 
 var engineSkipPrefixes = []string{"compile", "lower", "setLabel", "serialize", "deserialize"}
@@ -211,6 +219,13 @@ func rewrite(rel string, src []byte) ([]byte, error) {
 				continue
 			}
 			assertBlock(fset, rel, fd.Body, fd.Recv.List[0].Names[0].Name, g[id.Name])
+		}
+	}
+	if fg := fieldGuards[rel]; fg != nil {
+		for _, d := range f.Decls {
+			if fd, ok := d.(*ast.FuncDecl); ok && fd.Body != nil {
+				guardBlock(fset, rel, fd.Body, fg)
+			}
 		}
 	}
 	if needRT {
@@ -462,6 +477,62 @@ func assertBlock(fset *token.FileSet, rel string, b *ast.BlockStmt, recv string,
 		case *ast.ExprStmt, *ast.AssignStmt, *ast.ReturnStmt, *ast.IncDecStmt, *ast.SendStmt:
 			// (an inserted yield or assertion has no position and mentions nothing)
 			hdr(st)
+		}
+		out = append(out, st)
+	}
+	b.List = out
+}
+
+// guardBlock: like assertBlock for fieldGuards (any identifier as the holder); simple statements only.
+func guardBlock(fset *token.FileSet, rel string, b *ast.BlockStmt, fg map[string]string) {
+	if b == nil {
+		return
+	}
+	var out []ast.Stmt
+	for _, st := range b.List {
+		switch s := st.(type) {
+		case *ast.BlockStmt:
+			guardBlock(fset, rel, s, fg)
+		case *ast.IfStmt:
+			guardBlock(fset, rel, s.Body, fg)
+			if e, ok := s.Else.(*ast.BlockStmt); ok {
+				guardBlock(fset, rel, e, fg)
+			}
+		case *ast.ForStmt:
+			guardBlock(fset, rel, s.Body, fg)
+		case *ast.RangeStmt:
+			guardBlock(fset, rel, s.Body, fg)
+		case *ast.SwitchStmt:
+			for _, c := range s.Body.List {
+				if cc, ok := c.(*ast.CaseClause); ok {
+					blk := &ast.BlockStmt{List: cc.Body}
+					guardBlock(fset, rel, blk, fg)
+					cc.Body = blk.List
+				}
+			}
+		case *ast.ExprStmt, *ast.AssignStmt, *ast.ReturnStmt, *ast.IncDecStmt:
+			if !st.Pos().IsValid() {
+				break
+			}
+			holder, field := "", ""
+			ast.Inspect(st, func(x ast.Node) bool {
+				switch v := x.(type) {
+				case *ast.FuncLit:
+					return false
+				case *ast.SelectorExpr:
+					if id, ok := v.X.(*ast.Ident); ok && fg[v.Sel.Name] != "" && holder == "" {
+						holder, field = id.Name, v.Sel.Name
+					}
+				}
+				return true
+			})
+			if holder != "" {
+				site := fmt.Sprintf("%s:%d %s.%s", strings.TrimPrefix(rel, "internal/"), fset.Position(st.Pos()).Line, holder, field)
+				out = append(out, &ast.ExprStmt{X: &ast.CallExpr{
+					Fun:  &ast.SelectorExpr{X: &ast.SelectorExpr{X: ast.NewIdent(holder), Sel: ast.NewIdent(fg[field])}, Sel: ast.NewIdent("AssertHeld")},
+					Args: []ast.Expr{&ast.BasicLit{Kind: token.STRING, Value: strconv.Quote(site)}},
+				}})
+			}
 		}
 		out = append(out, st)
 	}
